@@ -211,7 +211,10 @@ class OpenAPISchemaResolver(SchemaTypeResolver):
 
             current_filename = os.path.basename(current_file)
             expected_filename = f"{module_stem}.py"
-            is_self_import = current_filename == expected_filename
+            # Only a file of the models package can be the model's own module: an endpoint module of the same
+            # name (tag "pet", schema "Pet") must import the model like any other module does
+            in_models_package = os.path.basename(os.path.dirname(current_file)) == "models"
+            is_self_import = current_filename == expected_filename and in_models_package
 
         if is_self_import:
             # This is a self-import (importing from the same file), so skip the import
